@@ -855,6 +855,8 @@ pub struct IxOutcome {
     pub return_data: Option<(Pubkey, Vec<u8>)>,
     pub injected_fired: bool,
     pub routing_mismatch: Option<String>,
+    /// per-step swap traces recorded by hook H1 (one per call of the swap loop)
+    pub traces: Vec<whirlpool::verif_hooks::SwapTrace>,
 }
 
 impl IxOutcome {
@@ -896,6 +898,7 @@ fn reset_ix_ctx(ix: &Ix, metas: &[Meta], opts: &ExecOpts) {
         c.return_data = None;
         c.panic_msg = None;
     });
+    whirlpool::verif_hooks::clear();
 }
 
 extern "C" {
@@ -1040,6 +1043,7 @@ pub fn exec_ix(
         final_buf = buf2;
         detail = None;
     }
+    out.traces = whirlpool::verif_hooks::take();
     with_ctx(|c| {
         out.logs = std::mem::take(&mut c.logs);
         out.events = std::mem::take(&mut c.data_logs);
